@@ -6,7 +6,10 @@ Tie: (a) allocator level -- random populations (gaps, ids up to 2^31 and beyond,
 ids at the upper bound, non-numeric and digit-like non-ASCII @id values, duplicates,
 non-canonical relationship ids, odd part names) are injected into the XML / parts of a
 real presentation, the real allocator (and a sequence of real add_* calls) is run, and
-every result is compared with the extracted model; (b) history level -- random sequences
+every result is compared with the extracted model (op ren: prs.slides then
+_next_slide_partname, the model being handed the part names iter_parts yields; the oracle
+asks of _next_slide_partname a slide part name no reachable part carries, the conventional
+one when free: signatures next-slide-partname-taken / -form / -not-conventional / -raises); (b) history level -- random sequences
 of add_slide / add_shape / add_textbox / add_picture / add_group_shape (+ nested) /
 add_connector / add_table / add_chart / notes_slide / hyperlink set+clear on real
 decks, with the ORACLE (uniqueness + stability of all four id spaces, read directly off
@@ -37,6 +40,8 @@ ASSUME = [
     "references are counted by drop_rel, exactly as in XmlPart._rel_ref_count",
     "part-name templates are modelled as (text before %d, text after %d) with no other % in them, as at every call site",
     "add_movie / p:timing rewriting is outside the state machine (next_cTn_id is modelled and tested as an allocator only)",
+    "_next_slide_partname is modelled as a function of the number of p:sldId entries and of the part names OpcPackage.iter_parts yields "
+    "(read off the real package after prs.slides returned or raised and handed to the model); a part object always has its package",
 ]
 
 MAXS = 2147483647
@@ -753,6 +758,11 @@ def gen_names(rng, op):
 
 # ----------------------------------------------------------------------------- rename
 def impl_ren(case, viol):
+    """prs.slides (rename_slide_parts) then PresentationPart._next_slide_partname on a package in which the
+    presentation part has a slide relationship to one generic part per entry of case["names"] (listed in
+    p:sldIdLst: case["listed"]) and a non-slide relationship to one more part per entry of case["extra"]
+    (parts that are not slides but may carry a slide part name).  Returns the outcome, the rId of every
+    slide relationship and the names of all the other reachable parts (what the model is given)."""
     from pptx import Presentation
     from pptx.opc.constants import RELATIONSHIP_TYPE as RT
     from pptx.opc.package import Part
@@ -765,6 +775,11 @@ def impl_ren(case, viol):
         p = Part(PackURI(n), "application/x-c06", pkg, b"")
         parts.append(p)
         rid_of[len(parts) - 1] = prs.part.relate_to(p, RT.SLIDE)
+    extras = []
+    for n in case.get("extra", []):
+        p = Part(PackURI(n), "application/x-c06", pkg, b"")
+        extras.append(p)
+        prs.part.relate_to(p, "http://c06/rel")
     rids = [("rId999" if i < 0 else rid_of[i]) for i in case["listed"]]
     lst = prs.part._element.get_or_add_sldIdLst()
     for r in rids:
@@ -774,7 +789,38 @@ def impl_ren(case, viol):
         o1 = "ok:" + show_strs([str(p.partname) for p in parts])
     except Exception as e:  # noqa
         o1 = "err:" + exc_name(e)
-    nxt = str(prs.part._next_slide_partname)
+    mine = set(id(p) for p in parts)
+    reach = list(pkg.iter_parts())
+    reach_names = [str(p.partname) for p in reach]
+    others = [str(p.partname) for p in reach if id(p) not in mine]
+    try:
+        nxt = str(prs.part._next_slide_partname)
+        o2 = "ok:" + show(nxt)
+    except Exception as e:  # noqa
+        nxt = None
+        o2 = "err:" + exc_name(e)
+        viol.append(("next-slide-partname-raises", "_next_slide_partname raises %s with the reachable part names %r and %d p:sldId entries"
+                     % (exc_name(e), [n for n in reach_names if n.startswith("/ppt/slides/")], len(rids)), case))
+    # ORACLE (since repair 086e8ef1, whatever the package looks like and whether or not prs.slides raised): the name
+    # add_slide is about to give the new slide part is a slide part name that no reachable part carries, and it is
+    # the conventional slide<len(sldIdLst)+1>.xml when that one is free
+    if nxt is not None:
+        conv = "/ppt/slides/slide%d.xml" % (len(rids) + 1)
+        if nxt in reach_names:
+            k = reach_names.index(nxt)
+            if id(reach[k]) in mine:
+                i = [id(p) for p in parts].index(id(reach[k]))
+                kind = "a listed slide part" if i in case["listed"] else "a slide part related to the presentation but absent from p:sldIdLst"
+            else:
+                kind = "a part that is not a slide part"
+            viol.append(("next-slide-partname-taken", "_next_slide_partname = %s is already the name of a reachable part (%s): add_slide would create a "
+                         "second part of that name" % (nxt, kind), case))
+        m = re.fullmatch(r"/ppt/slides/slide([1-9][0-9]*)\.xml", nxt)
+        if not m:
+            viol.append(("next-slide-partname-form", "_next_slide_partname = %r is not /ppt/slides/slide<K>.xml with K >= 1" % nxt, case))
+        if conv not in reach_names and nxt != conv:
+            viol.append(("next-slide-partname-not-conventional", "_next_slide_partname = %s although %s is free (%d p:sldId entries)"
+                         % (nxt, conv, len(rids)), case))
     if o1.startswith("ok:"):
         after = [str(p.partname) for p in parts]
         listed = case["listed"]
@@ -786,22 +832,21 @@ def impl_ren(case, viol):
             if len(set(case["names"])) == len(case["names"]):
                 if len(set(after)) != len(after):
                     dup = sorted(n for n in set(after) if after.count(n) > 1)
-                    # the known class: one of the two parts is a slide part related to the presentation
-                    # but missing from p:sldIdLst; any other duplicate keeps its own signature
+                    # the known class (the rename half, the only one left since 086e8ef1): one of the two parts is a
+                    # slide part related to the presentation but missing from p:sldIdLst; any other duplicate keeps
+                    # its own signature
                     unl = [i for i, n in enumerate(after) if n == dup[0] and i not in listed]
                     if not unl:
                         viol.append(("partname-duplicate-rename", "after prs.slides two LISTED slide parts are both named %s" % dup[0], case))
                     else:
                         viol.append(("unlisted-slide-partname-collision",
-                                 "after prs.slides (rename_slide_parts) two reachable parts are both named %s: a slide part related to the "
+                                     "after prs.slides (rename_slide_parts) two reachable parts are both named %s: a slide part related to the "
                                      "presentation but absent from p:sldIdLst keeps its name while a listed slide is renamed onto it" % dup[0], case))
-                elif nxt in after and after.index(nxt) in listed:
-                    viol.append(("partname-duplicate-rename", "_next_slide_partname = %s is the name of a listed slide" % nxt, case))
-                elif nxt in after:
-                    viol.append(("unlisted-slide-partname-collision",
-                                 "_next_slide_partname = %s is already the name of a reachable part that p:sldIdLst does not list "
-                                 "(add_slide would create a second part with that name)" % nxt, case))
-    return o1 + "|" + show(nxt), rid_of
+                hit = sorted(set(others) & set(got))
+                if hit:
+                    viol.append(("partname-duplicate-rename-other", "after prs.slides a listed slide part and a reachable part that is not a slide "
+                                 "part are both named %s" % hit[0], case))
+    return o1 + "|" + o2, rid_of, others
 
 
 def gen_ren(rng, klass):
@@ -832,7 +877,59 @@ def gen_ren(rng, klass):
             listed.append(rng.choice(listed))
         if rng.random() < 0.05:
             listed.insert(rng.randint(0, len(listed)), -1)
-    return {"op": "ren", "klass": klass, "names": names, "listed": listed}
+    case = {"op": "ren", "klass": klass, "names": names, "listed": listed}
+    if klass != "valid" and rng.random() < 0.35:
+        # reachable parts that are not slide parts; those with a slide part name sit at or above the conventional next
+        # name (below it the first access of prs.slides would rename a listed slide onto them: the rename half)
+        extra = []
+        for _ in range(rng.randint(1, 3)):
+            r = rng.random()
+            if r < 0.7:
+                nm = "/ppt/slides/slide%d.xml" % (len(listed) + 1 + rng.choice([0, 0, 0, 1, 2]))
+            elif r < 0.8:
+                nm = "/ppt/slides/slide0%d.xml" % rng.randint(1, 9)
+            elif r < 0.9:
+                nm = "/ppt/slides/slideshow%d.xml" % rng.randint(1, 3)
+            else:
+                nm = "/ppt/charts/chart%d.xml" % rng.randint(1, 3)
+            if nm not in used and nm not in extra:
+                extra.append(nm)
+        case["extra"] = extra
+    return case
+
+
+def directed_ren():
+    """The situations the repair 086e8ef1 is about, by hand: the conventional next name carried by an unlisted
+    slide part, by a listed one (only when prs.slides raised before renaming it), by a part that is not a slide;
+    the gap left by removing a slide other than the last; every name up to the search bound taken."""
+    S = "/ppt/slides/slide%d.xml"
+    out = []
+
+    def add(names, listed, extra=None, klass="directed"):
+        c = {"op": "ren", "klass": klass, "names": names, "listed": listed}
+        if extra is not None:
+            c["extra"] = extra
+        out.append(c)
+
+    add([S % 1, S % 2], [0])                                  # taken by an unlisted slide part
+    add([S % 1, S % 3], [0])                                  # unlisted, but not in the way
+    add([S % 1, S % 2, S % 3], [0, 2])                        # slide 2 of 3 unlisted: listed ones become 1, 2
+    add([S % 3, S % 9], [-1, 0])                              # prs.slides raises at once: a LISTED part keeps slide3
+    add([S % 2, S % 5], [0, -1, 1])                           # raises half way: slide1 renamed, slide5 not, candidate slide4
+    add([S % 4, S % 7], [0, -1, 1])                           # raises half way, candidate slide4 free
+    add([S % 1], [0], [S % 2])                                # taken by a part that is not a slide
+    add([S % 1, S % 2], [0, 1], [S % 3, S % 4])               # search goes down from 5
+    add([S % 1, S % 2], [0, 1], [S % 3, S % 5])               # search finds 4 between two taken names
+    add([], [], [S % 1])                                      # no slide at all, slide1 taken by another part
+    add([], [], [S % 1, S % 2, S % 3])
+    add([S % 1], [0], ["/ppt/slides/slideshow2.xml", "/ppt/slides/slide02.xml"])   # same prefix, not the candidate
+    add([S % 1], [0], [S % 2, "/ppt/slides/slideshow2.xml", "/ppt/slides/slide02.xml", "/ppt/slides/slide.xml"])
+    add([S % 1, S % 2, S % 3, S % 4], [3, 0])                 # two unlisted, candidate slide3 taken by one of them
+    for n in range(0, 5):
+        # the usual delete-a-slide recipe seen from here: n+1 slide parts, one of them unlisted
+        for gone in range(n + 1):
+            add([S % (k + 1) for k in range(n + 1)], [k for k in range(n + 1) if k != gone])
+    return out
 
 
 # ----------------------------------------------------------------------------- histories
@@ -1156,12 +1253,14 @@ def canon_model(case, line):
     return line
 
 
-def ren_model_case(case, rid_of):
+def ren_model_case(case, rid_of, others):
+    """others: the names of the reachable parts other than the targets of the slide relationships (the template's
+    parts and case["extra"]), read off the package: the model is handed what iter_parts yields."""
     prels = []
     for i in range(len(case["names"])):
         prels += [rid_of[i], i]
     rids = [("rId999" if i < 0 else rid_of[i]) for i in case["listed"]]
-    return ["ren", len(case["names"])] + case["names"] + [len(prels)] + prels + rids
+    return ["ren", len(others)] + others + [len(case["names"])] + case["names"] + [len(prels)] + prels + rids
 
 
 def nontrivial(case):
@@ -1180,7 +1279,7 @@ def nontrivial(case):
     if op in ("pn", "img", "med"):
         return len(case["names"]) >= 1
     if op == "ren":
-        return len(case["listed"]) >= 1
+        return len(case["listed"]) >= 1 or len(case.get("extra", [])) >= 1
     if op == "ctn":
         return len(case["ids"]) >= 1
     if op == "phn":
@@ -1192,11 +1291,12 @@ def gen_cases(tier, rng):
     q = tier == "quick"
     cases = []
     # the witnesses of C06_turbo_refuted, C06_shape_nondecimal_crash and
-    # C06_slide_partname_unlisted_refuted come first so that they are the recorded inputs
+    # C06_rename_unlisted_refuted come first so that they are the recorded inputs
     cases.append({"op": "shp", "klass": "turbo", "sids": ["1"], "oids": [], "nconn": 0,
                   "ops": [("t", 0), ("g", 0, "group"), ("n", "grp"), ("m", 0, "shape", 0)]})
     cases.append({"op": "shp", "klass": "odd", "sids": ["1", "²"], "oids": [], "nconn": 0, "ops": [("m", 0, "textbox", 0)]})
-    cases.append({"op": "ren", "klass": "odd", "names": ["/ppt/slides/slide1.xml", "/ppt/slides/slide2.xml"], "listed": [0]})
+    cases.append({"op": "ren", "klass": "odd", "names": ["/ppt/slides/slide2.xml", "/ppt/slides/slide1.xml"], "listed": [0]})
+    cases += directed_ren()
     for _ in range(60000 if q else 400000):
         cases.append(gen_int(rng))
     for s in ID_POOL_ODD + ["٢", "rId", "0", "00", "-0", "+0", " ", "_1", "1_", "1__0", " 1 "]:
@@ -1237,9 +1337,9 @@ def run(ck, tier, rng):
         impl_out, model_in = [], []
         for c in cases:
             if c["op"] == "ren":
-                o, rid_of = impl_ren(c, viol)
+                o, rid_of, others = impl_ren(c, viol)
                 impl_out.append(o)
-                model_in.append(ren_model_case(c, rid_of))
+                model_in.append(ren_model_case(c, rid_of, others))
             else:
                 impl_out.append(run_impl(env, c, viol))
                 model_in.append(to_model(c, tnames))
@@ -1343,8 +1443,8 @@ def replay(rec):
             if k in case:
                 case[k] = [tuple(o) for o in case[k]]
         if case["op"] == "ren":
-            io_, rid_of = impl_ren(case, viol)
-            mi = ren_model_case(case, rid_of)
+            io_, rid_of, others = impl_ren(case, viol)
+            mi = ren_model_case(case, rid_of, others)
         else:
             io_ = run_impl(env, case, viol)
             mi = to_model(case, template_names())
@@ -1363,13 +1463,15 @@ CLAIM = {
     "tech": "Coq proof over a Gallina model of every id / part-name allocator as a function of the population it scans, and of the slide and "
             "relationship collections as state machines over operation histories (fold over op lists) + extracted-model correspondence on real "
             "parts with injected populations + independent oracle on public-API histories and the saved zip",
-    "text": "33 theorems closed under the global context: next_rId / next_partname / image / media / placeholder-name results are fresh for every "
+    "text": "37 theorems closed under the global context: next_rId / next_partname / image / media / placeholder-name results are fresh for every "
             "population (pigeonhole over the injective decimal rendering; the 'impossible' raises are unreachable); max+1 and first-gap shape ids are "
             "positive and fresh for any multiset of @id strings (str.isdecimal filter and int() modelled on code points, tables compared over all "
             "0x110000 code points); distinct shape ids stay distinct and no existing id is rewritten under any turbo-free history; slide ids stay in "
             "256..2147483647, fresh, existing ones untouched, with the exact StopIteration condition; rename_slide_parts gives slide1..n in order with "
-            "the exact collision condition. Two refuted statements carry their witnesses (turbo cache vs first-gap allocator; slide part missing from "
-            "p:sldIdLst) and are re-found on the real code. ~75k (quick) / ~490k (thorough) allocator cases and 150 / 1500 API histories, 0 diffs.",
+            "the exact collision condition; _next_slide_partname (as repaired by 086e8ef1) never raises and, for every number of p:sldId entries and "
+            "every list of reachable part names, answers a slide part name no reachable part carries, the conventional slide<n+1>.xml whenever that "
+            "is free, else next_partname's largest free candidate. Two refuted statements carry their witnesses (turbo cache vs first-gap allocator; "
+            "first access of prs.slides with a slide part missing from p:sldIdLst) and are re-found on the real code. ~75k (quick) / ~490k (thorough) allocator cases and 150 / 1500 API histories, 0 diffs.",
     "note": "slide-like parts are abstracted to their @id value lists and per-proxy turbo caches, relationship collections to (rId, target) pairs plus "
             "r:id references; add_movie timing rewriting is outside the state machine; numeric identity of an id is what str.isdecimal + int read "
             "(values such as ' 7' or '+7' are ignored by the scan exactly as in the code); int() refuses more than 4300 digits and the theorems say so.",
